@@ -746,9 +746,67 @@ def shrink(v):
     return {"property": "C12", "what": "%s(encoding=%r): %s" % (w["store"], w.get("encoding"), bad(w)), "case": w}
 
 
+def source_dictionary():
+    """string constants of the stores' CURRENT source (a fuzzing dictionary): a change that treats some key, tag or marker
+    specially is found by offering exactly the strings it mentions"""
+    import ast
+    from harness.common import REPO
+    out = []
+    base = os.path.join(REPO, "src", "uberjob", "stores")
+    for fn in sorted(os.listdir(base)):
+        if not fn.endswith(".py"):
+            continue
+        try:
+            tree = ast.parse(open(os.path.join(base, fn)).read())
+        except SyntaxError:
+            continue
+        docs = {id(n.body[0].value) for n in ast.walk(tree)
+                if isinstance(n, (ast.Module, ast.ClassDef, ast.FunctionDef)) and n.body and isinstance(n.body[0], ast.Expr)
+                and isinstance(n.body[0].value, ast.Constant)}
+        for n in ast.walk(tree):
+            if isinstance(n, ast.Constant) and isinstance(n.value, str) and id(n) not in docs and 0 < len(n.value) <= 40 and n.value not in out:
+                out.append(n.value)
+    return out
+
+
+INTERESTING = ["2024-02-29", "2021-01-01T00:00:00", "20210101", "12:30:00", "1", "0", "-1", "1.5", "", "null", "true", "NaN", "{}", "[]",
+               None, 0, 1, True, False, [], {}, [1], {"a": 1}]
+
+
+def dictionary_json_cases():
+    """JSON values built from the strings the stores' source mentions (see `source_dictionary`): as a key of a one-key dict
+    with a range of 'interesting' values, as a value, nested one level down, and two-key variants"""
+    words = source_dictionary()
+    out = []
+    for k in words:
+        out.append(k)
+        out.append([k])
+        for v in INTERESTING:
+            out.append({k: v})
+            out.append([{k: v}])
+        out.append({k: "2024-02-29", "other": 1})
+    for a in words[:12]:
+        for b in words[:12]:
+            if a != b:
+                out.append({a: b})
+    return out
+
+
 def search(ctx, broken):
     class C:
         pass
+    found = []
+    try:
+        for v in dictionary_json_cases():
+            w = witness("JsonFileStore", None, False, None, v)
+            f, _ = check_roundtrip(w, v)
+            if f:
+                found.append({"property": "C12", "what": "JsonFileStore: %s" % f[0], "case": w})
+                break
+    finally:
+        sc.cleanup_scratch()
+    if found:
+        return found
     for k in range(1, 3):
         c = C()
         c.__dict__.update(ctx.__dict__)
